@@ -25,6 +25,9 @@ def load_known(prop_id):
 
 
 def spawn(prop_id, tier, seed, shard, nshards, out, replay=None, pyflags=()):
+    pyflags = list(pyflags)
+    if shard % 4 == 1 and "-b" not in pyflags:
+        pyflags.append("-b")      # bytes/str mix-ups are reported (the worker turns them into errors for library code, as -bb would)
     cmd = [
         env.PY, "-B", *pyflags, "-m", "vf.worker", prop_id,
         "--tier", tier, "--seed", str(seed),
@@ -38,6 +41,10 @@ def spawn(prop_id, tier, seed, shard, nshards, out, replay=None, pyflags=()):
     e["PYTHONPATH"] = str(env.VERIF)
     e["PYTHONDONTWRITEBYTECODE"] = "1"
     e.setdefault("TZ", "UTC")
+    if shard % 7 == 3:
+        # the process's locale and text encoding are the host's business: one worker in seven runs in the plain C locale
+        # without UTF-8 mode (file system encoding and default open() encoding are ASCII there)
+        e.update({"LC_ALL": "C", "LANG": "C", "PYTHONUTF8": "0", "PYTHONCOERCECLOCALE": "0"})
     log = open(str(out) + ".log", "w")
     return subprocess.Popen(cmd, cwd=str(env.VERIF), env=e, stdout=log, stderr=subprocess.STDOUT), log
 
